@@ -201,6 +201,13 @@ def h_outer(sx):
     outer = OuterEnv(env, state_representation=srep if with_reps else None, observation_representation=orep if with_reps else None)
     op = sx.choice('op', ['state', 'observation', 'step', 'reset', 'action_space'])
     sx.cover('outer-' + op)
+    if with_reps:  # reads that happened before the operation must leave no trace in the outer environment
+        prior = sx.choice('prior', ['none', 'state', 'observation', 'both'])
+        if prior in ('state', 'both'):
+            outer.state
+        if prior in ('observation', 'both'):
+            outer.observation
+        del srep.seen[:], orep.seen[:]
     if op in ('state', 'observation') and not with_reps:
         try:
             getattr(outer, op)
@@ -227,10 +234,14 @@ def h_outer(sx):
         sx.check(isinstance(out, tuple) and out[0] == r2 and bool(out[1]) == bool(d2), 'outer-step-returns-inner-reward-and-flag')
         states_equal(sx, env._state, nxt, 'outer-step-advances-the-inner-state-once')
         sx.check(env._observation is None, 'outer-step-invalidates-the-observation')
+        if with_reps:
+            sx.check(outer.state['s'] is env._state and outer.observation['o'] is env._observation, 'outer-views-current-after-step')
     elif op == 'reset':
         fresh, _ = lazy_state(sx, 2, 2, SMALL8, name='r', held_sigma=[], agent='r', held='rheld')
         counter['reset_state'] = fresh
         sx.check(outer.reset() is None and env._state is fresh and env._observation is None and counter['reset_calls'] == 1, 'outer-reset-resets-the-inner-env')
+        if with_reps:
+            sx.check(outer.state['s'] is fresh and outer.observation['o'] is env._observation and counter['obs_states'][-1] is fresh, 'outer-views-current-after-reset')
     else:
         sx.check(outer.action_space is env.action_space, 'outer-action-space-is-inner-action-space')
 
